@@ -1,1 +1,7 @@
+import PyshaclProps.C01
+import PyshaclProps.C02
 import PyshaclProps.C03
+import PyshaclProps.C04
+import PyshaclProps.C06
+import PyshaclProps.C11
+import PyshaclProps.C12
